@@ -70,6 +70,18 @@ func genC13(t *rapid.T) Case {
 	c.Keys = GenKeys(t, 2, 4, false)
 	c.Ops = GenTxOps(t, TxGenOpts{MinOps: 8, MaxOps: 50, LateWeight: 35, Weights: map[string]int{
 		"begin": 7, "set": 8, "del": 3, "get": 3, "getr": 1, "keys": 2, "commit": 5, "rollback": 4, "gc": 1}})
+	// scripted fragments: a transaction ends in each possible way (commit, conflict-aborted commit,
+	// rollback) and is then used again at once, while observers stay open
+	for n := rapid.IntRange(0, 3).Draw(t, "fragments"); n > 0; n-- {
+		frag := GenConflictScenario(t)
+		if rapid.IntRange(0, 3).Draw(t, "endByRollback") == 0 {
+			frag[len(frag)-1] = Op{K: "rollback", Last: true}
+		}
+		frag = append(frag, GenLateOps(t)...)
+		// everyone reads after the late calls (read-back does that), and a later commit-all must not publish them
+		at := rapid.IntRange(0, len(c.Ops)).Draw(t, "fragAt")
+		c.Ops = append(c.Ops[:at:at], append(frag, c.Ops[at:]...)...)
+	}
 	// a restart at the end: nothing a late call did may survive it
 	c.Ops = append(c.Ops, Op{K: "reopen"})
 	return c
